@@ -42,9 +42,9 @@ def main():
     verif_head = subprocess.run("git -C /verif log --format=%h -1", shell=True, capture_output=True, text=True).stdout.strip()
     rows = []
     prefix = os.environ.get("SEED_PREFIX", "seed")
-    # the second round of changes (prefix s2) is stored as <ID>-3 and <ID>-4, the third (s3) as <ID>-5 and <ID>-6
-    shift = {"s2": 2, "s3": 4}.get(prefix, 0)
-    first_file = {0: f"{ROOT}/FIRST_ROUND.txt", 2: f"{ROOT}/SECOND_ROUND.txt", 4: f"{ROOT}/THIRD_ROUND.txt"}[shift]
+    # the second round of changes (prefix s2) is stored as <ID>-3 and <ID>-4, the third (s3) as <ID>-5 and <ID>-6, the fourth (s4) as <ID>-7 and <ID>-8
+    shift = {"s2": 2, "s3": 4, "s4": 6}.get(prefix, 0)
+    first_file = {0: f"{ROOT}/FIRST_ROUND.txt", 2: f"{ROOT}/SECOND_ROUND.txt", 4: f"{ROOT}/THIRD_ROUND.txt", 6: f"{ROOT}/FOURTH_ROUND.txt"}[shift]
     first = parse_summary(first_file)
     for out in sorted(glob.glob(f"/tmp/{prefix}-C??-out")):
         pid = os.path.basename(out)[len(prefix) + 1:len(prefix) + 4]
